@@ -244,7 +244,7 @@ uint32_t vh_below(uint32_t n) { return n ? (uint32_t)((vh_rand() >> 33) % n) : 0
 FILE *ev_out = 0;
 long ev_count = 0;
 static int first;
-static int depth_first[32];
+static int depth_first[1024];
 static int dtop = 0;
 static void sep(void)
 {
